@@ -120,6 +120,23 @@ def gen_scenario(rng, max_jobs=10, min_jobs=2, shapes=None, fail_p=0.5, flag_p=0
     }
 
 
+def normalize(scen):
+    """Keep a generated scenario valid: estimates within the group's walltime, groups all used."""
+    groups = {g["name"]: g for g in scen["groups"]}
+    for j in scen["jobs"]:
+        g = groups[j["group"]]
+        if j["est"] > g["wall_min"]:
+            j["est"] = g["wall_min"]
+    for g in scen["groups"]:
+        g["walltime"] = f"0:{g['wall_min']:02d}:00"
+        if g["time_based"] and g["procs_opt"] is None:
+            g["procs_opt"] = 2
+        g["procs"] = g["procs_opt"] if g["procs_opt"] else 3
+    used = {j["group"] for j in scen["jobs"]}
+    scen["groups"] = [g for g in scen["groups"] if g["name"] in used]
+    return scen
+
+
 def write_config(scen, root, registry):
     """Write <root>/config.json for the scenario through JADE's public models."""
     os.environ["JADE_REGISTRY"] = registry
